@@ -231,6 +231,48 @@ fn run_c07(p: &Plan, rep: &mut RunReport) {
         rep.violate("C07.c", "footer-hashes", "footer hash / chunk hashes differ from the input".into());
     }
 
+    // fault history (one run in three): a damaged copy of this object is read first on the same thread — the payload
+    // of one stored-compressed chunk damaged near its end, in its middle, or cut short; whatever those reads return,
+    // the reads of the intact object below must be unaffected (decoder state must not survive a failed decode)
+    if mix(&[p.range_seed, 0xFA11]) % 3 == 0 {
+        let mut pos = 0usize;
+        let mut targets: Vec<(usize, usize)> = Vec::new();
+        for (scheme, payload, _) in &parsed.chunks {
+            if *scheme != 0 && payload.len() >= 8 {
+                targets.push((pos + 8, payload.len()));
+            }
+            pos += 8 + payload.len();
+        }
+        if !targets.is_empty() {
+            let (at, len) = targets[(mix(&[p.range_seed, 1]) % targets.len() as u64) as usize];
+            let mut bad = b.bytes.clone();
+            match mix(&[p.range_seed, 2]) % 3 {
+                0 => {
+                    for k in 1..=4 {
+                        bad[at + len - k] ^= 0xFF;
+                    }
+                },
+                1 => bad[at + len / 2] ^= 0x5A,
+                _ => {
+                    bad[at + len - 1] = bad[at + len - 1].wrapping_add(1);
+                    bad[at + len - 4] = bad[at + len - 4].wrapping_add(1);
+                },
+            }
+            let _ = take_last_panic();
+            let r = std::panic::catch_unwind(|| {
+                let mut c = Cursor::new(&bad);
+                if let Ok(cas) = CasObject::deserialize(&mut c) {
+                    let _ = cas.get_all_bytes(&mut c);
+                }
+                let _ = block_on(cas_object::validate_cas_object_from_async_read(&mut AsyncShortReader::new(&bad, 1, 0, 0), &m_of(&b.hash)));
+            });
+            if r.is_err() {
+                rep.violate("C07.d", "panic-on-damaged-object", format!("reading a damaged copy panicked: {:?}", take_last_panic()));
+            }
+            rep.count("fault:damaged_copy_read_first_on_this_thread", 1);
+        }
+    }
+
     // seekable reader with short reads
     let mut r = ShortReader::new(&b.bytes, p.reader_seed, p.reader_mode);
     let cas = match CasObject::deserialize(&mut r) {
@@ -894,7 +936,7 @@ impl Engine for XorbEngine {
     }
     fn rule(&self, focus: &str) -> String {
         if focus == "C07" {
-            "Each run: a seeded chunk list (1..600 chunks, one run in 150 (quick) or 50 (thorough) 600..8192 small chunks incl. 1151/1152/1153 and the 8192 maximum; lengths 1 B..128 KiB incl. every residue mod 4, random / compressible / float-like content) is serialised by the real code under None / LZ4 / BG4+LZ4 / automatic, parsed by the independent parser, and read back through a seekable reader with seeded short reads (whole object, every chunk range up to 12 chunks, sampled beyond) and through the three chunk decoders (sync short reads; tokio AsyncRead with short reads and Pending; Stream<Bytes> cut at seeded offsets incl. empty fragments). Non-trivial: a compressed scheme was actually stored and a reader delivered fragments. Distinct: (spec seed, scheme, reader seed, reader mode, chunk count).".into()
+            "Each run: a seeded chunk list (1..600 chunks, one run in 150 (quick) or 50 (thorough) 600..8192 small chunks incl. 1151/1152/1153 and the 8192 maximum; lengths 1 B..128 KiB incl. every residue mod 4, random / compressible / float-like content) is serialised by the real code under None / LZ4 / BG4+LZ4 / automatic, parsed by the independent parser, and read back through a seekable reader with seeded short reads (whole object, every chunk range up to 12 chunks, sampled beyond) — one run in three after a damaged copy of the same object (one compressed payload damaged at its end, in its middle or made inconsistent) has been read on the same thread — and through the three chunk decoders (sync short reads; tokio AsyncRead with short reads and Pending; Stream<Bytes> cut at seeded offsets incl. empty fragments). Non-trivial: a compressed scheme was actually stored and a reader delivered fragments. Distinct: (spec seed, scheme, reader seed, reader mode, chunk count).".into()
         } else {
             "Each run: a valid xorb (with its own hash and with another hash) plus one seeded mutant (byte flip, truncation, dropped/duplicated/swapped chunks with or without a rebuilt footer, overwritten u32 footer fields incl. counts and section offsets, combined footer edits (section-version bytes together with u32 fields), re-assembled footers whose three chunk counts disagree while every table and offset is consistent with its own count, stripped footer, appended bytes, random string); one run in 40 additionally enumerates, for an object of 1-4 small chunks, every single-bit flip and the all-bits flip of every chunk-header and non-hash footer byte (3 masks for hash bytes), truncation at every offset, every pair (one of the three version bytes set to 0 or 2) x (one u32 footer field zeroed, incremented or saturated), and all 26 re-assembled footers with count deltas in {-1,0,+1}^3. Both validators and the footer parser run under catch_unwind with a counting allocator; every acceptance is re-verified independently. Non-trivial: the mutant differs from the original and is at least 8 bytes long (parsing gets past the ident check). Distinct: (spec seed, mutation, enumerate).".into()
         }
